@@ -836,9 +836,12 @@ def gen_trace(seed):
         p_protect = 0.0
     # a correlated corner the independent knobs meet too rarely: coarse or unequal tolerances, a small iteration
     # budget and restarts that end "almost there" before one succeeds (near miss, then success)
-    campaign = pick_weighted(r, [("none", 7.0), ("nearmiss", 1.0)])
+    campaign = pick_weighted(r, [("none", 7.0), ("nearmiss", 1.0), ("failstreak", 0.6)])
     if campaign == "nearmiss":
         tol_mode, iters_mode, restart_mode, p_protect = "loose", r.choice(["tiny", "tiny", "tiny", "small", "small"]), "scripted", 0.0
+    if campaign == "failstreak":
+        # a streak of failed check=False solves (counters such as fail_count grow), then borderline solves
+        tol_mode, iters_mode, restart_mode = "loose", r.choice(["tiny", "small"]), "scripted"
     length = pick_weighted(ro, [(1, 2.0), (2, 2.0), (3, 2.0), (ro.randint(4, 6), 2.0), (ro.randint(7, 10), 1.0)])
     steps = []
 
@@ -873,6 +876,9 @@ def gen_trace(seed):
             return {"k": "current"}, None
         if k == "fk":
             th = in_limits(ro.choice([0.3, 0.6, 1.0]), margin=ro.choice([0.0, 0.16]))
+            if ro.random() < 0.1:
+                # joint angles on multiples of pi/2: aligned axes, singular configurations, tool rotations near pi
+                th = [min(max(round(x / (math.pi / 2)) * (math.pi / 2), mins[j]), maxs[j]) for j, x in enumerate(th)]
             return {"k": "fk", "theta": [round(x, 6) for x in th]}, th
         if k == "boundary":
             th = in_limits(1.0)
@@ -953,6 +959,12 @@ def gen_trace(seed):
         return st
 
     n_ik = 0
+    if campaign == "failstreak":
+        for _ in range(ro.randint(3, 5)):
+            steps.append({"op": "IK" if ro.random() < 0.5 else "cIK", "check": False, "level": 6, "max_iters": ro.randint(1, 4),
+                          "goal": {"k": "beyond", "dir": [round(x, 4) for x in _unit(ro)], "f": 2.0, "rot": [0.0, 0.0, 0.0]},
+                          "start": [round(x, 6) for x in in_limits(1.0)], "rs": {"kinds": ["uniform"], "seed": ro.getrandbits(32)}})
+        length = max(length, len(steps) + 2)
     while len(steps) < length + (1 if t else 0) or n_ik == 0:
         k = pick_weighted(ro, [("ik", 7.0), ("ikfree", 1.2), ("FK", 1.0), ("move", 0.7), ("home", 0.5), ("restoreEE", 0.3),
                                ("limits", 0.5), ("tol", 0.5)])
